@@ -69,6 +69,14 @@ impl Outcome {
             Outcome::Panic { site, msg } => json!({"result": "panic", "site": site, "msg": msg}),
         }
     }
+    /// one-line form for violation texts
+    pub fn brief(&self) -> String {
+        match self {
+            Outcome::Ok(b) => format!("code {}", hex_trunc(&b.code, 16)),
+            Outcome::Err(e) => format!("an error ({})", e),
+            Outcome::Panic { site, msg } => format!("a panic at {}: {}", site, msg),
+        }
+    }
     pub fn kind(&self) -> &'static str {
         match self {
             Outcome::Ok(_) => "ok",
